@@ -202,6 +202,19 @@ def pyval(v):
     return n if t == "S" else [n] if t == "L" else {"a": n}
 
 
+def keep_scalar(c, v):
+    """AyContainer!KeepS"""
+    return v % 2 == 0 if c == 0 else v % 2 == 1 if c == 1 else False if c == 2 else v >= 10
+
+
+def filter_condition(c):
+    Composed = lib()["ComposedNode"]
+
+    def cond(path, node):
+        return (not isinstance(node, Composed)) and keep_scalar(c, int(node))
+    return cond
+
+
 def apply_op(root, op):
     """op = [name, target path, i, i2, key, key2, flag, vals]; returns the exception class name or ''"""
     name, tp, i, i2, key, key2, flag, vals = op[:8]
@@ -260,6 +273,10 @@ def apply_op(root, op):
             tgt.ayns.remove_child(key)
         elif name == "d.rename_child":
             tgt.ayns.rename_child(key, key2)
+        elif name in ("l.remove_node", "d.remove_node"):      # through the root: path of the container + one name
+            root.ayns.remove_node(list(tp) + [i if name[0] == "l" else key])
+        elif name in ("l.filter", "d.filter"):
+            tgt.ayns.filter_nodes(filter_condition(i))
         else:
             raise RuntimeError("unknown operation " + name)
     except RuntimeError:
@@ -749,7 +766,7 @@ def gen_op(rng, root, fresh):
     i, i2 = rng.randint(-6, 6), rng.randint(0, 6)
     if isinstance(tgt, list):
         name = rng.choice(["l.setitem", "l.delitem", "l.append", "l.insert", "l.insert", "l.extend", "l.remove", "l.pop",
-                           "l.clear", "l.set_child", "l.remove_child", "l.rename_child", "l.append", "l.delitem"])
+                           "l.clear", "l.set_child", "l.remove_child", "l.rename_child", "l.append", "l.delitem", "l.remove_node", "l.filter"])
         vals, flag = [], False
         if name in ("l.setitem", "l.append", "l.insert", "l.set_child"):
             vals = [val()]
@@ -771,11 +788,15 @@ def gen_op(rng, root, fresh):
             flag = rng.random() < 0.6
         elif name == "l.rename_child":
             i = rng.randint(0, 4)
+        elif name == "l.filter":
+            i = rng.randint(0, 3)
+            if i == 2 and rng.random() < 0.6:
+                i = 3
         if name == "l.clear" and rng.random() < 0.6:
             name, vals = "l.append", [val()]
         return [name, tp, i, i2, "", "", flag, vals]
     name = rng.choice(["d.setitem", "d.setattr", "d.delitem", "d.delattr", "d.update", "d.setdefault", "d.pop", "d.popitem",
-                       "d.clear", "d.set_child", "d.remove_child", "d.rename_child", "d.setitem", "d.delitem"])
+                       "d.clear", "d.set_child", "d.remove_child", "d.rename_child", "d.setitem", "d.delitem", "d.remove_node", "d.filter"])
     key, key2 = rng.choice(B_KEYS), rng.choice(["a", "b", "z", "_y", "clear", "update"])
     vals, flag = [], False
     setters = ("d.setitem", "d.setattr", "d.setdefault", "d.set_child")
@@ -791,6 +812,9 @@ def gen_op(rng, root, fresh):
         flag = rng.random() < 0.5
     if name == "d.clear" and rng.random() < 0.6:
         name, vals = "d.set_child", [val()]
+    if name == "d.filter":
+        c = rng.randint(0, 3)
+        return [name, tp, 3 if c == 2 and rng.random() < 0.6 else c, 0, key, key2, flag, vals]
     return [name, tp, 0, 0, key, key2, flag, vals]
 
 
@@ -883,7 +907,11 @@ def describe(start, ops):
                 "d.pop": lambda: f"{tgt}.pop({key!r}{', None' if flag else ''})", "d.popitem": lambda: f"{tgt}.popitem()",
                 "d.clear": lambda: f"{tgt}.clear()", "d.set_child": lambda: f"{tgt}.ayns.set_child({key!r}, {v[0]!r})",
                 "d.remove_child": lambda: f"{tgt}.ayns.remove_child({key!r})",
-                "d.rename_child": lambda: f"{tgt}.ayns.rename_child({key!r}, {key2!r})"}[name]()
+                "d.rename_child": lambda: f"{tgt}.ayns.rename_child({key!r}, {key2!r})",
+                "l.remove_node": lambda: f"x.ayns.remove_node({list(tp) + [i]!r})",
+                "d.remove_node": lambda: f"x.ayns.remove_node({list(tp) + [key]!r})",
+                "l.filter": lambda: f"{tgt}.ayns.filter_nodes(<keep scalars: {['even', 'odd', 'none', '>= 10'][i]}>)",
+                "d.filter": lambda: f"{tgt}.ayns.filter_nodes(<keep scalars: {['even', 'odd', 'none', '>= 10'][i]}>)"}[name]()
         txt.append(call)
     return txt
 
